@@ -135,6 +135,31 @@ fn check_fill(rep: &Report, local: &mut Local, fc: &FillCase) {
         if ci.md5_digest() != cb.md5_digest() {
             return Err(("context_md5".into(), "context MD5 differs between the int and the byte path".into()));
         }
+        // the pair (frame buffer, context) the encoder hands to a source: a full block, a block that is one
+        // inter-channel sample too long (refused), then the partial block - both deliveries must leave the
+        // same state behind at every step, also after the refusal
+        {
+            let mut pi = (FrameBuf::with_size(fc.ch, fc.cap).map_err(|e| ("framebuf_new".to_string(), format!("{e:?}")))?, Context::new(fc.bps, fc.ch));
+            let mut pb = (FrameBuf::with_size(fc.ch, fc.cap).map_err(|e| ("framebuf_new".to_string(), format!("{e:?}")))?, Context::new(fc.bps, fc.ch));
+            let over = samples_for(fc, fc.cap + 1, 33);
+            for (step, blk) in [&full, &over, &part].into_iter().enumerate() {
+                let bytes = le_bytes(blk, fc.bytes);
+                let ri = pi.fill_interleaved(blk).is_ok();
+                let rb = pb.fill_le_bytes(&bytes, fc.bytes).is_ok();
+                if ri != rb {
+                    return Err(("pair_result".into(), format!("(FrameBuf, Context) step {step}: int fill ok = {ri}, byte fill ok = {rb}")));
+                }
+                if step == 1 && ri {
+                    return Err(("pair_overfull_accepted".into(), "(FrameBuf, Context): a block one sample longer than the buffer was accepted".into()));
+                }
+                if pi.1.md5_digest() != pb.1.md5_digest() || pi.1.total_samples() != pb.1.total_samples() || pi.1.current_frame_number() != pb.1.current_frame_number() {
+                    return Err(("pair_context_differs".into(), format!("(FrameBuf, Context) after step {step} ({}): context differs between the int and the byte path (count {} vs {}, frame number {:?} vs {:?})", ["full block", "refused over-full block", "partial block"][step], pi.1.total_samples(), pb.1.total_samples(), pi.1.current_frame_number(), pb.1.current_frame_number())));
+                }
+                if pi.0.filled_size() != pb.0.filled_size() {
+                    return Err(("pair_filled_size".into(), format!("(FrameBuf, Context) after step {step}: filled size {} vs {}", pi.0.filled_size(), pb.0.filled_size())));
+                }
+            }
+        }
         let mut all = full.clone();
         all.extend_from_slice(&part);
         if ci.md5_digest() != md5ref(&all, fc.bps) {
